@@ -27,7 +27,13 @@ RULE = ("designs from a seeded generator: module trees of depth <= 3 (some modul
         "i/o/io ports, parameters and attributes (plain ints of any size and sign incl. every +-2^k(+-1) boundary around 31/32/33/40/64 "
         "bits, bool, int-valued Python/amaranth enum members, Const of any shape, str with escapes, float), each compared with the "
         "text both as the constant _const must write (Rtlil.emit_xval) and numerically (decoded, in Coq and in Python), I/O buffers on IOPorts, "
-        "lib.memory.Memory with sync/comb read ports and write ports; plus a fixed list of hand-written designs. Every emitted "
+        "lib.memory.Memory with sync/comb read ports and write ports (width 0 and depth 0 included); names at every naming site "
+        "(signals, ports, submodules, instance types / ports / parameters / attributes, memories, IOPorts, domains) drawn also from "
+        "x.y a[0] a#b a\"b a\\b and non-ASCII, and at 3 % of the designs from names containing whitespace; struct / array / enum shaped "
+        "signals (one wire per field) with field names that clash with signal names; AnyConst / AnySeq / Initial, ClockSignal / "
+        "ResetSignal leaves; zero-width IOPorts (3 %); half of the designs with emit_src left at its default; only designs "
+        "rejected with DriverConflict / CombinationalCycle / DomainError are skipped (counted), any other exception is a case; "
+        "plus a fixed list of hand-written designs (every naming site x odd / whitespace names, field-wire clashes, x.y vs x/y). Every emitted "
         "document is validated by wf_doc. Negative corpus: hand-corrupted texts and single-point corruptions of emitted documents "
         "(dangling wire, width mismatch incl. a process assignment widened in the emitted text, double driver, undriven wire, driven input, missing/extra port, duplicate name, sparse port "
         "index, unknown module, wrong instance parameter) that wf_doc must reject. _add_name sequences: exhaustive over a 4-name "
@@ -53,7 +59,11 @@ STATS = {"programs": 0, "rejected": 0, "neg": 0, "convert_failed": 0, "samples":
 
 
 # =================================================================== building real designs from a description
-NAME_POOL = ["a", "a", "a", "b", "b", "o", "clk", "rst", "sub", "sub", "inst", "mem", "x", "", "", "top", "U"]
+NAME_POOL = ["a", "a", "a", "b", "b", "o", "clk", "rst", "sub", "sub", "inst", "mem", "x", "", "", "top", "U",
+             "x.y", "a[0]", "a#b", 'a"b', "a\\b", "\u00e9", "a.f"]
+ODD_NAMES = ["x.y", "a[0]", "a#b", 'a"b', "a\\b", "\u00e9", "x", "y"]        # legal identifiers that need no escaping in RTLIL
+WS_POOL = ["a b", "a\tb", "a\nb", " a", "b ", "a\rb"]                         # whitespace: the emitted text does not parse
+FIELD_NAMES = ["f", "g", "a", "e", "x.y", "f[0]"]
 DOLLAR_POOL = ["port$1$0", "port$2$0", "U$0", "a$1", "a$2", "a$3", "a$4", "a$5", "b$2", "b$3", "sub$2", "sub$3", "o$3", "o$4"]
 UNARY = ["~", "-", "b", "r|", "r&", "r^", "abs"]
 BINARY = ["+", "-", "*", "//", "%", "<<", ">>", "&", "|", "^", "==", "!=", "<", "<=", ">", ">=", "rol"]
@@ -63,14 +73,74 @@ class Built:
     pass
 
 
+def lay_width(l):
+    k = l[0]
+    if k in ("u", "s", "enum"):
+        return l[1]
+    if k == "struct":
+        return sum(lay_width(x) for _n, x in l[1])
+    if k == "array":
+        return lay_width(l[1]) * l[2]
+    raise ValueError(l)
+
+
+def field_wire_names(name, l):
+    """names of the wires back/rtlil.py emit_signal_fields declares for a signal of this layout (without the root)"""
+    out = []
+    if l[0] == "struct":
+        for fn, sub in l[1]:
+            out.append(f"{name}.{fn}")
+            out += field_wire_names(f"{name}.{fn}", sub)
+    elif l[0] == "array":
+        for i in range(l[2]):
+            out.append(f"{name}[{i}]")
+            out += field_wire_names(f"{name}[{i}]", l[1])
+    return out
+
+
+def mk_layout(l):
+    from amaranth.hdl import signed, unsigned
+    from amaranth.lib import data, enum as amenum
+    k = l[0]
+    if k == "u":
+        return unsigned(l[1])
+    if k == "s":
+        return signed(l[1])
+    if k == "struct":
+        return data.StructLayout({fn: mk_layout(sub) for fn, sub in l[1]})
+    if k == "array":
+        return data.ArrayLayout(mk_layout(l[1]), l[2])
+    if k == "enum":
+        members = {f"M{j}": j for j in range(min(l[2], 1 << l[1]))} or {"M0": 0}
+        return _mk_enum(l[1], members)
+    raise ValueError(l)
+
+
+def _mk_enum(w, members):
+    from amaranth.hdl import unsigned
+    from amaranth.lib import enum as amenum
+    ns = amenum.EnumType.__prepare__("E", (amenum.Enum,), shape=unsigned(w))
+    for kname, v in members.items():
+        ns[kname] = v
+    return amenum.EnumType("E", (amenum.Enum,), ns, shape=unsigned(w))
+
+
 def build(D):
     """description -> (top Module, ports argument, Built info with the real objects)."""
     from amaranth.hdl import (Module, Signal, Const, Cat, Mux, IOPort, Instance, IOBufferInstance, ClockDomain, signed, unsigned,
                               Print, Assert, Format, ClockSignal, ResetSignal, Array)
+    from amaranth.hdl._ast import AnyConst, AnySeq, Initial
     from amaranth.hdl._ir import PortDirection
     from amaranth.lib.memory import Memory
     B = Built()
-    B.sigs = [Signal(signed(s["w"]) if s["s"] else unsigned(s["w"]), name=s["n"], init=s.get("i", 0)) for s in D["sigs"]]
+    B.sigs = []
+    for s in D["sigs"]:
+        if s.get("lay") is not None:
+            assert lay_width(s["lay"]) == s["w"], s
+            v = Signal(mk_layout(s["lay"]), name=s["n"])
+            B.sigs.append(v if isinstance(v, Signal) else v.as_value())
+        else:
+            B.sigs.append(Signal(signed(s["w"]) if s["s"] else unsigned(s["w"]), name=s["n"], init=s.get("i", 0)))
     B.ios = [IOPort(p["w"], name=p["n"]) for p in D["ios"]]
     B.mods = []
     B.insts = {}       # (module index, item index) -> Instance
@@ -115,6 +185,10 @@ def build(D):
             return ex(e[1]).as_unsigned()
         if k == "mr":
             return B.mems[e[1]][1][e[2]].data
+        if k == "any":
+            return AnyConst(e[2]) if e[1] == "const" else AnySeq(e[2])
+        if k == "init":
+            return Initial()
         if k == "clk":
             return ClockSignal(e[1])
         if k == "rstsig":
@@ -264,7 +338,10 @@ def convert(D):
     """-> (text, Built) using the public entry point."""
     from amaranth.back import rtlil
     top, ports, B = build(D)
-    text = rtlil.convert(top, ports=ports, emit_src=False)
+    if D.get("src"):
+        text = rtlil.convert(top, ports=ports)          # default: emit_src=True
+    else:
+        text = rtlil.convert(top, ports=ports, emit_src=False)
     return text, B
 
 
@@ -406,6 +483,11 @@ def expectations(D, B, doc):
                 real = B.insts[(mi, ii)].ports[name][0]
                 fports.append({"name": "\\" + name, "dir": {"i": "input", "o": "output", "io": "inout"}[kind],
                                "width": len(real), "bits": bits(v)})
+        if D.get("src") and not any(a[0] == "\\src" for a in attrs):
+            # emit_src (the default): the cell carries the place where the Instance object was created
+            loc = B.insts[(mi, ii)].src_loc
+            if loc is not None:
+                attrs.insert(0, ["\\src", ["str", f"{loc[0]}:{loc[1]}"]])
         out.append({"module": modname, "cell": "\\" + info.name[-1], "type": "\\" + q["type"],
                     "params": params, "attrs": attrs, "ports": fports})
     return out
@@ -462,7 +544,16 @@ def numeric_disagreements(doc, ex):
             want = xval_number(x)
             if want is None:
                 want_c = ["str", x[1]]
-                if n not in got_p or got_p[n][1] != want_c or (got_p[n][0] == "real") != (x[0] == "float"):
+                if x[0] == "float":
+                    # the written literal, read back as a float, is the given float (x[1] = repr of the given value)
+                    ok = n in got_p and got_p[n][0] == "real" and got_p[n][1][0] == "str"
+                    try:
+                        ok = ok and float(got_p[n][1][1]) == float(x[1])
+                    except ValueError:
+                        ok = False
+                    if not ok:
+                        bad.append((n, x, got_p.get(n)))
+                elif n not in got_p or got_p[n][1] != want_c or got_p[n][0] == "real":
                     bad.append((n, x, got_p.get(n)))
                 continue
             if n not in got_p or rtlil_parse.const_value(got_p[n][1], got_p[n][0] == "signed") != want:
@@ -671,7 +762,12 @@ def analyse(D):
             text, B = convert(D)
         except Exception as e:
             tb = traceback.extract_tb(sys.exc_info()[2])
-            r = ("raise", None, None, None, (type(e).__name__, tb[-1].name if tb else ""))
+            t = sys.exc_info()[2]
+            while t.tb_next is not None:
+                t = t.tb_next
+            detail = t.tb_frame.f_locals.get("name")
+            r = ("raise", None, None, None, (type(e).__name__, tb[-1].name if tb else "",
+                                             tb[-2].name if len(tb) > 1 else "", detail if isinstance(detail, str) else None))
         else:
             try:
                 doc = rtlil_parse.parse(text)
@@ -693,6 +789,10 @@ def coq_term(case):
             STATS["convert_failed"] += 1
             return "[1]"       # the property: a legal design converts to a document that parses
         STATS["programs"] += 1
+        for f in ex:
+            for fp in f["ports"]:
+                STATS["ports_predicted" if fp["bits"] is not None else "ports_width_only"] = \
+                    STATS.get("ports_predicted" if fp["bits"] is not None else "ports_width_only", 0) + 1
         if len(STATS["samples"]) < 2 and len(text) < 2500 and len(doc["modules"]) > 1:
             STATS["samples"].append({"design": case["d"], "rtlil": text, "instances_expected": ex})
         return with_strings(lambda: f"k_wf {t_ex(ex)}\n {t_doc(doc)}")
@@ -723,6 +823,12 @@ def classify(case):
             tags.append("clash")
         if any("$" in n for n in names):
             tags.append("dollar")
+        if any(x.get("lay") is not None for x in d["sigs"]):
+            tags.append("struct")
+        if any(_has_ws(n) for n in all_names(d)):
+            tags.append("ws")
+        if d.get("src"):
+            tags.append("src")
         return "design:" + "+".join(tags)
     if k == "neg":
         return "neg:" + case["why"]
@@ -743,14 +849,96 @@ def nontrivial(case, obs):
     return any(len(set(w)) < len(w) or (set(w) & set(r)) for r, w in case["items"])
 
 
+def all_names(D):
+    """every name the design gives at a naming site"""
+    out = [x["n"] for x in D["sigs"]] + [x["n"] for x in D["ios"]] + [p[2] for p in D["ports"] if p[2] is not None]
+    for m in D["mods"]:
+        out += [d[0] for d in m.get("doms", [])]
+        for it in m["items"]:
+            if it[2] is not None:
+                out.append(it[2])
+            if it[0] == "inst":
+                out.append(it[1]["type"])
+                out += [a[1] for a in it[1]["args"]]
+    return out
+
+
+def _has_ws(n):
+    return any(c.isspace() or ord(c) < 32 for c in n)
+
+
+def _sanitize(D):
+    """the same design with every whitespace / control character inside a string replaced by `_`"""
+    def walk(x):
+        if isinstance(x, str):
+            return "".join("_" if (c.isspace() or ord(c) < 32) else c for c in x)
+        if isinstance(x, list):
+            return [walk(y) for y in x]
+        if isinstance(x, dict):
+            return {k: walk(v) for k, v in x.items()}
+        return x
+    return walk(D)
+
+
+def _module_paths(D):
+    """hierarchical names of all fragments as Design._assign_names gives them"""
+    from amaranth.hdl._ir import Fragment
+    top, ports, _B = build(D)
+    design = Fragment.get(top, None).prepare(ports=ports, hierarchy=("top",))
+    return [info.name for info in design.fragments.values()]
+
+
 def known_finding(case, obs, model):
-    """the conversion of a legal design dies in a bare assertion of rtlil.emit_signal_wires because the generated port
-    name port$<cell>$<bit> of a private signal collides with a signal the user named so"""
-    if case["kind"] == "design" and obs == [-1, EXC["AssertionError"]]:
-        st, _t, _d, _e, err = analyse(case["d"])
-        if st == "raise" and err[0] == "AssertionError" and err[1] == "emit_signal_wires" \
-                and any(s["n"].startswith("port$") for s in case["d"]["sigs"]):
+    """A mismatch is one of the listed findings only if its exact mechanism is re-established on the design:
+    the failing frame / name is inspected, or the design is re-converted under the finding's repair."""
+    if case["kind"] != "design":
+        return None
+    D = case["d"]
+    st, _t, _d, _e, err = analyse(D)
+    if obs == [-2] and st == "noparse":
+        # whitespace inside a name: exactly when the design has such a name and the same design with those characters
+        # replaced converts to text that parses
+        if any(_has_ws(n) for n in all_names(D)):
+            st2 = analyse(_sanitize(D))[0]
+            if st2 == "ok":
+                return "C07-whitespace-in-names"
+        return None
+    if st != "raise" or obs != [-1, EXC.get(err[0], 99)]:
+        return None
+    kind, fn, caller, name = err
+    user = {x["n"] for x in D["sigs"]}
+    if kind == "AssertionError" and fn == "emit_signal_wires":
+        # `assert value == port_value` for a wire whose name is a synthesized port name that a user signal also has
+        import re
+        if name is not None and re.fullmatch(r"port\$\d+\$\d+", name) and name in user:
             return "C07-port-name-collision"
+    if kind == "AssertionError" and fn == "_name" and caller == "wire" and name is not None and name.startswith("\\"):
+        # `assert name not in self.contents` for the wire of a struct/array field: the same wire name is produced twice
+        # (by two fields, possibly of two signals) or is also the name of a user signal.  The signal's own name may have
+        # been de-duplicated to <given>$<n>.
+        n = name[1:]
+        hits = 0
+        for x in D["sigs"]:
+            if x.get("lay") is None:
+                continue
+            for f in field_wire_names("", x["lay"]):
+                if n.endswith(f):
+                    prefix = n[:len(n) - len(f)]
+                    if prefix == x["n"] or prefix.startswith(x["n"] + "$"):
+                        hits += 1
+        if hits >= 2 or (hits == 1 and n in user):
+            return "C07-field-wire-name-collision"
+    if kind == "AssertionError" and fn == "module" and name is not None:
+        # rtlil.Design.module: two different hierarchy paths have the same dotted name
+        try:
+            paths = _module_paths(D)
+        except Exception:
+            return None
+        same = [p for p in paths if ".".join(p) == name]
+        if len(set(same)) >= 2:
+            return "C07-dotted-module-name-collision"
+    if kind == "IndexError" and caller == "emit_io_port_wires" and any(x["w"] == 0 for x in D["ios"]):
+        return "C07-zero-width-ioport"
     return None
 
 
@@ -783,6 +971,9 @@ def extra(tier, seed, findings):
                                         {"add_name_sequence": {"reserved": ["o"], "wanted": ["a", "a$3", "a"]},
                                          "implementation": ["a", "a$3", "a$4"], "model": ["a", "a$3", "a$4"]}],
         "generator_skipped_illegal_designs": GEN_STATS.get("skipped_illegal", 0),
+        "generator_skipped_by_exception": GEN_STATS.get("skipped_by", {}),
+        "instance_ports_connection_predicted": STATS.get("ports_predicted", 0),
+        "instance_ports_width_and_direction_only": STATS.get("ports_width_only", 0),
     }
     return [], cov
 
@@ -799,6 +990,14 @@ def _expr(rng, D, avail, depth, want_w=None):
                 hi = rng.randrange(lo, w + 1)
                 return ["sl", ["s", i], lo, hi]
             return ["s", i]
+        r0 = rng.random()
+        if r0 < 0.04:
+            return ["any", rng.choice(["const", "seq"]), rng.choice([0, 1, 3, 4])]
+        if r0 < 0.06:
+            return ["init"]
+        if r0 < 0.12 and D.get("clkdoms"):
+            dn, has_rst = rng.choice(D["clkdoms"])
+            return ["rstsig", dn] if has_rst and rng.random() < 0.4 else ["clk", dn]
         w = rng.choice([0, 1, 2, 3, 4, 8])
         return ["c", rng.randrange(0, 1 << w) if w else 0, w, False] if rng.random() < 0.7 or w == 0 else \
                ["c", rng.randrange(-(1 << (w - 1)), 1 << (w - 1)), w, True]
@@ -932,6 +1131,10 @@ def _width(D, e):
 def _ex_width(D, e, sigs):
     from amaranth.hdl import Const, Cat, Mux, signed, unsigned, Array
     k = e[0]
+    if k == "any":
+        return Const(0, e[2])
+    if k in ("init", "clk", "rstsig"):
+        return Const(0, 1)
     if k == "arr":
         return Array([_ex_width(D, x, sigs) for x in e[1]])[_ex_width(D, e[2], sigs)]
     if k == "as_s":
@@ -1021,8 +1224,35 @@ def _pval(rng, attr=False):
     return ["float", rng.choice([1.5, -0.25, 0.0, 1e300, 3.141592653589793, -2.0 ** 70, 1e-7])]
 
 
-def gen_design(rng, dollar=False):
-    D = {"sigs": [], "ios": [], "mods": [], "ports": []}
+def _layout(rng, w, depth=2):
+    """a data layout of total width w (struct / array / enum / plain fields)"""
+    r = rng.random()
+    if w == 0:
+        return ["struct", []] if r < 0.5 else ["u", 0]
+    if depth <= 0 or w == 1 or r < 0.2:
+        r2 = rng.random()
+        if r2 < 0.35 and w <= 4:
+            return ["enum", w, rng.randrange(1, 5)]
+        return ["s", w] if r2 < 0.55 else ["u", w]
+    if r < 0.4 and w >= 2:
+        for n in (2, 3, 4):
+            if w % n == 0 and rng.random() < 0.6:
+                return ["array", _layout(rng, w // n, depth - 1), n]
+    names = list(FIELD_NAMES)
+    rng.shuffle(names)
+    fields, left = [], w
+    for k in range(rng.randrange(1, 4)):
+        fw = left if k == 2 else rng.randrange(0, left + 1)
+        fields.append([names[k], _layout(rng, fw, depth - 1)])
+        left -= fw
+    if left:
+        fields.append([names[3], _layout(rng, left, depth - 1)])
+    return ["struct", fields]
+
+
+def gen_design(rng, dollar=False, ws=False, zio=False):
+    D = {"sigs": [], "ios": [], "mods": [], "ports": [], "src": rng.random() < 0.5}
+    odd = (lambda base: base + ODD_NAMES[:6] + (WS_POOL if ws else []))
     # module tree
     nm = rng.choice([1, 1, 2, 2, 3, 3, 4, 5, 6])
     depth = {0: 0}
@@ -1034,7 +1264,7 @@ def gen_design(rng, dollar=False):
         depth[k] = depth[p] + 1
         D["mods"].append({"n": None, "doms": [], "st": [], "items": []})
         used_sub_names[k] = set()
-        nm_ = rng.choice(["sub", "sub", "a", "b", "o", "clk", "x", None, None, "inst", "mem"])
+        nm_ = rng.choice(["sub", "sub", "a", "b", "o", "clk", "x", "x", "y", None, None, "inst", "mem"] + ODD_NAMES[:2] + (WS_POOL if ws else []))
         if nm_ in used_sub_names[p]:
             nm_ = None
         if nm_ is not None:
@@ -1042,10 +1272,16 @@ def gen_design(rng, dollar=False):
         D["mods"][p]["items"].append(["mod", k, nm_])
     # clock domains
     doms = ["sync"]
+    clkdoms = [["sync", True]]
     if rng.random() < 0.4:
-        doms.append("d2")
+        d2 = rng.choice(["d2", "d2", "d.x", "a", "\u00e9"])
+        doms.append(d2)
+        rless = False
         if rng.random() < 0.6:
-            D["mods"][0]["doms"].append(["d2", rng.choice(["pos", "neg"]), rng.random() < 0.4, rng.random() < 0.3, False])
+            rless = rng.random() < 0.3
+            D["mods"][0]["doms"].append([d2, rng.choice(["pos", "neg"]), rng.random() < 0.4, rless, False])
+        clkdoms.append([d2, not rless])
+    D["clkdoms"] = clkdoms
     if nm > 1 and rng.random() < 0.15:
         k = rng.randrange(1, nm)
         D["mods"][k]["doms"].append(["loc", "pos", False, False, True])
@@ -1054,11 +1290,17 @@ def gen_design(rng, dollar=False):
         local_dom = None
     # signals
     ns = rng.randrange(3, 11)
-    pool = NAME_POOL + (DOLLAR_POOL if dollar else [])
+    pool = NAME_POOL + (DOLLAR_POOL if dollar else []) + (WS_POOL * 2 if ws else [])
     for i in range(ns):
         w = rng.choice([0, 1, 1, 2, 3, 4, 4, 8])
         sg = w >= 1 and rng.random() < 0.3
         D["sigs"].append({"n": rng.choice(pool), "w": w, "s": sg, "i": rng.randrange(0, 1 << w) if (w and not sg) else 0})
+        if rng.random() < 0.15:
+            # struct / array / enum shaped signal: emit_signal_fields declares a wire per field
+            D["sigs"][-1].update({"s": False, "i": 0, "lay": _layout(rng, w)})
+            D["sigs"][-1]["s"] = D["sigs"][-1]["lay"][0] == "s"
+            if D["sigs"][-1]["n"] == "":
+                D["sigs"][-1]["n"] = "s"
     # roles: owner[i] = ("in",) | ("comb", mod) | ("sync", mod, dom) | ("inst", mod) ; decided in index order
     owner = {}
     for i in range(ns):
@@ -1100,7 +1342,7 @@ def gen_design(rng, dollar=False):
     # extra readers: use signals in modules other than their owner (routing through the hierarchy)
     nio = rng.choice([0, 0, 1, 2])
     for k in range(nio):
-        D["ios"].append({"n": rng.choice(["pad", "a", "io", "pad", "clk"]), "w": rng.choice([1, 2, 4])})
+        D["ios"].append({"n": rng.choice(odd(["pad", "a", "io", "pad", "clk", "pad", "a"])), "w": rng.choice([1, 2, 4] + ([0, 0] if zio else []))})
     io_free = list(range(nio))
     rng.shuffle(io_free)
     # instances
@@ -1116,9 +1358,9 @@ def gen_design(rng, dollar=False):
         av = [j for j in range(ns) if j < lowest or j in sync_ids or j in in_ids]
         args = []
         for k in range(rng.randrange(0, 6)):
-            args.append(["p", rng.choice(["X", "Y", "WIDTH", "INIT"]) + str(k), _pval(rng)])
+            args.append(["p", rng.choice(odd(["X", "Y", "WIDTH", "INIT"] * 3)) + str(k), _pval(rng)])
         for k in range(rng.randrange(0, 3)):
-            args.append(["a", rng.choice(["keep", "LOC", "src"]) + str(k), _pval(rng, attr=True)])
+            args.append(["a", rng.choice(odd(["keep", "LOC", "src"] * 4)) + str(k), _pval(rng, attr=True)])
         for k in range(rng.randrange(0, 4)):
             r = rng.random()
             if r < 0.6 and av:
@@ -1127,7 +1369,7 @@ def gen_design(rng, dollar=False):
                 e = _expr(rng, D, av, 0)
             else:
                 e = ["cat", [_expr(rng, D, av, 0) for _ in range(rng.randrange(0, 3))]]
-            args.append(["i", f"i{k}", e])
+            args.append(["i", rng.choice(odd(["i"] * 12)) + str(k), e])
         if outs:
             if len(outs) >= 2 and rng.random() < 0.3:
                 args.append(["o", "oc", ["cat", [["s", outs[0]], ["s", outs[1]]]]])
@@ -1141,7 +1383,7 @@ def gen_design(rng, dollar=False):
                     args.append(["o", f"o{k}l", ["sl", ["s", t], 0, cut]])
                     args.append(["o", f"o{k}h", ["sl", ["s", t], cut, w]])
                 else:
-                    args.append(["o", f"o{k}", ["s", t]])
+                    args.append(["o", rng.choice(odd(["o"] * 12)) + str(k), ["s", t]])
         if io_free and rng.random() < 0.7:
             p = io_free.pop()
             w = D["ios"][p]["w"]
@@ -1150,13 +1392,19 @@ def gen_design(rng, dollar=False):
                 args.append(["io", "pb", ["iosl", p, 1, w]])
             else:
                 args.append(["io", "p", ["io", p]])
+        seen_ports = set()
+        for a_ in args:          # port names are keys of one dict in Instance: keep them distinct
+            if a_[0] in ("i", "o", "io"):
+                while a_[1] in seen_ports:
+                    a_[1] += "_" + a_[0]
+                seen_ports.add(a_[1])
         rng.shuffle(args)
-        nm_ = rng.choice(["inst", "a", "sub", None, "foo", "o"])
+        nm_ = rng.choice(odd(["inst", "a", "sub", None, "foo", "o"] * 2))
         if nm_ in used_sub_names[mo]:
             nm_ = None
         if nm_ is not None:
             used_sub_names[mo].add(nm_)
-        D["mods"][mo]["items"].append(["inst", {"type": rng.choice(["foo", "bar", "a", "SB_IO", "sub"]), "args": args}, nm_])
+        D["mods"][mo]["items"].append(["inst", {"type": rng.choice(odd(["foo", "bar", "a", "SB_IO", "sub"] * 2)), "args": args}, nm_])
     # I/O buffers on the remaining IOPorts
     while io_free:
         p = io_free.pop()
@@ -1178,8 +1426,8 @@ def gen_design(rng, dollar=False):
     # memories
     if rng.random() < 0.3:
         mo = rng.randrange(nm)
-        w = rng.choice([1, 4, 8])
-        d = rng.choice([1, 2, 4, 5, 16])
+        w = rng.choice([0, 1, 4, 8])
+        d = rng.choice([0, 1, 2, 4, 5, 16])
         wr = [rng.choice(doms) for _ in range(rng.randrange(0, 3))]
         rd = []
         for _ in range(rng.randrange(0, 3)):
@@ -1192,7 +1440,7 @@ def gen_design(rng, dollar=False):
              "wr": wr, "rd": rd,
              "rdc": [[_fit(rng, D, src, ab), _fit(rng, D, src, 1)] for _ in rd],
              "wrc": [[_fit(rng, D, src, ab), _fit(rng, D, src, w), _fit(rng, D, src, 1)] for _ in wr]}
-        nm_ = rng.choice(["mem", "a", None])
+        nm_ = rng.choice(odd(["mem", "a", None] * 3))
         if nm_ in used_sub_names[mo]:
             nm_ = None
         if nm_ is not None:
@@ -1221,7 +1469,7 @@ def gen_design(rng, dollar=False):
         if rng.random() < 0.55:
             pname, d = None, None
             if s["n"] == "" or rng.random() < 0.2:
-                pname = rng.choice(["p", "a", "b", "o", "clk", "sub", "q", "r"])
+                pname = rng.choice(odd(["p", "a", "b", "o", "clk", "sub", "q", "r"] * 2))
                 if pname in taken:
                     pname = f"p{i}"
             if pname is not None:
@@ -1254,9 +1502,9 @@ def _fit(rng, D, ids, w):
 def legal(D):
     """does the real toolchain accept the design? (DriverConflict etc. = generator slip, the design is skipped)"""
     st, _text, _doc, _ex, err = analyse(D)
-    if st == "raise" and err[0] != "AssertionError":
-        return False, err
-    return True, (None if st == "ok" else err)      # an AssertionError is never legitimate: kept as a case
+    if st == "raise" and err[0] in ("DriverConflict", "CombinationalCycle", "DomainError"):
+        return False, err        # the only rejections the generator can provoke by its own slips; counted in the evidence
+    return True, (None if st == "ok" else err)      # any other exception is kept as a case (a mismatch unless a listed finding)
 
 
 # ---- hand-written designs (fixed list)
@@ -1313,6 +1561,69 @@ def fixed_designs():
     args += [["p", "F0", ["float", 1.5]], ["p", "F1", ["float", -2.0 ** 70]], ["p", "F2", ["float", 1e-7]], ["o", "q", ["s", 0]]]
     out.append({"sigs": [S("q", 1)], "ios": [], "mods": [M(items=[["inst", {"type": "foo", "args": args}, "u"]])],
                 "ports": [["s", 0, None, None]]})
+    # ---- audit additions
+    P = lambda n: [["s", i, None, None] for i in range(n)]
+    inv = lambda o, a: ["eq", ["s", o], ["u", "~", ["s", a]]]
+    # names with whitespace at every naming site (the emitted text does not parse: finding C07-whitespace-in-names), and
+    # odd but legal names at the same sites
+    for nmx in ["a b", "a\nb", "a\tb", " a", "x.y", "a[0]", 'a"b', "a\\b", "\u00e9"]:
+        out.append({"sigs": [S(nmx, 2), S("o", 2)], "ios": [], "mods": [M(st=[["comb", [inv(1, 0)]]])], "ports": P(2)})
+        out.append({"sigs": [S("a", 2), S("o", 2)], "ios": [], "mods": [M(st=[["comb", [inv(1, 0)]]])],
+                    "ports": [["s", 0, nmx, None], ["s", 1, None, None]]})
+        out.append({"sigs": [S("a", 2), S("o", 2)], "ios": [], "mods": [M(items=[["mod", 1, nmx]]), M(st=[["comb", [inv(1, 0)]]])], "ports": P(2)})
+        out.append({"sigs": [S("a", 2), S("o", 2)], "ios": [{"n": nmx, "w": 1}],
+                    "mods": [M(items=[["inst", {"type": nmx, "args": [["i", nmx, ["s", 0]], ["o", "o", ["s", 1]], ["p", nmx, ["int", 1]],
+                                                                      ["a", nmx, ["int", 2]], ["io", "pad", ["io", 0]]]}, nmx]])], "ports": P(2)})
+        out.append({"sigs": [S("a", 2), S("d", 8), S("o", 8)], "ios": [],
+                    "mods": [M(items=[["mem", {"key": "m0", "w": 8, "d": 4, "init": [1], "wr": [], "rd": [["comb", []]],
+                                                "rdc": [[["s", 0], ["c", 1, 1, False]]], "wrc": []}, nmx]],
+                               st=[["comb", [["eq", ["s", 2], ["mr", "m0", 0]]]]])], "ports": [["s", 0, None, None], ["s", 2, None, None]]})
+        out.append({"sigs": [S("a", 2)], "ios": [], "clkdoms": [[nmx, True]],
+                    "mods": [M(doms=[[nmx, "pos", False, False, False]], st=[[nmx, [["eq", ["s", 0], ["b", "+", ["s", 0], ["c", 1, 1, False]]]]]])],
+                    "ports": P(1)})
+    # struct / array / enum shaped signals: one wire per field (emit_signal_fields), in the top and in a submodule
+    LAY = ["struct", [["f", ["u", 2]], ["g", ["array", ["u", 1], 2]], ["e", ["enum", 2, 3]], ["x.y", ["struct", [["a", ["s", 2]]]]]]]
+    SS = lambda n, lay, **kw: {"n": n, "w": lay_width(lay), "s": lay[0] == "s", "i": 0, "lay": lay}
+    out.append({"sigs": [SS("s", LAY), S("o", 8), SS("t", LAY), SS("en", ["enum", 2, 3]), S("q", 2)], "ios": [],
+                "mods": [M(items=[["mod", 1, "sub"]], st=[["comb", [inv(1, 0), ["eq", ["s", 4], ["s", 3]]]]]),
+                         M(st=[["sync", [["eq", ["s", 2], ["b", "+", ["s", 2], ["s", 0]]]]]])],
+                "ports": [["s", 0, None, None], ["s", 1, None, None], ["s", 2, None, None], ["s", 3, None, None], ["s", 4, None, None]]})
+    # a user signal named like a field wire of a struct signal of the same module (finding C07-field-wire-name-collision)
+    for clash in ["s.f", "s.g[0]", "s.x.y.a"]:
+        out.append({"sigs": [SS("s", LAY), S(clash, 2), S("o", 8)], "ios": [],
+                    "mods": [M(st=[["comb", [["eq", ["s", 2], ["b", "^", ["s", 0], ["s", 1]]]]]])], "ports": P(3)})
+    # two struct signals whose field wires coincide (s with field "f.g" and s.f with field "g")
+    out.append({"sigs": [SS("s", ["struct", [["f.g", ["u", 2]]]]), SS("s.f", ["struct", [["g", ["u", 2]]]]), S("o", 2)], "ios": [],
+                "mods": [M(st=[["comb", [["eq", ["s", 2], ["b", "^", ["s", 0], ["s", 1]]]]]])], "ports": P(3)})
+    # submodule "x.y" next to submodule x containing y: both are module top.x.y (finding C07-dotted-module-name-collision);
+    # and the harmless variant where one of them is empty
+    for empty in (False, True):
+        out.append({"sigs": [S("a", 2), S("o", 2), S("p", 2)], "ios": [],
+                    "mods": [M(items=[["mod", 1, "x.y"], ["mod", 2, "x"]]), M(st=[["comb", [inv(1, 0)]]]), M(items=[["mod", 3, "y"]]),
+                             M(st=[] if empty else [["comb", [["eq", ["s", 2], ["b", "+", ["s", 0], ["c", 1, 1, False]]]]]])],
+                    "ports": P(2 if empty else 3)})
+    # $anyconst / $anyseq / $initstate, ClockSignal / ResetSignal as values and ClockSignal as a target
+    out.append({"sigs": [S("o", 4), S("q", 4), S("r", 1), S("z", 0), S("c", 1), S("k", 1), S("t", 1), S("u", 1)], "ios": [],
+                "clkdoms": [["sync", True], ["d", True]],
+                "mods": [M(doms=[["d", "pos", False, False, False]],
+                           st=[["comb", [["eq", ["s", 0], ["any", "const", 4]], ["eq", ["s", 1], ["any", "seq", 4]], ["eq", ["s", 2], ["init"]],
+                                         ["eq", ["s", 3], ["any", "const", 0]], ["eq", ["clk", "d"], ["s", 4]], ["eq", ["s", 5], ["clk", "sync"]],
+                                         ["eq", ["s", 6], ["rstsig", "sync"]]]],
+                               ["d", [["eq", ["s", 7], ["u", "~", ["s", 7]]]]]])], "ports": P(8)})
+    # zero-width IOPort: buffer, unused explicit port, instance (finding C07-zero-width-ioport)
+    out.append({"sigs": [S("o", 0)], "ios": [{"n": "p", "w": 0}],
+                "mods": [M(items=[["buf", {"port": ["io", 0], "i": ["s", 0], "o": None, "oe": None}, None]])], "ports": [["s", 0, None, None], ["io", 0, None, None]]})
+    out.append({"sigs": [S("o", 1)], "ios": [{"n": "p", "w": 0}],
+                "mods": [M(items=[["mod", 1, "s"]]), M(items=[["inst", {"type": "foo", "args": [["io", "p", ["io", 0]], ["o", "o", ["s", 0]]]}, "u"]])],
+                "ports": P(1)})
+    # memory of width 0 and memory of depth 0
+    for mw, md in [(0, 4), (4, 0), (0, 0)]:
+        ab = 2 if md else 0
+        out.append({"sigs": [S("a", 2), S("d", 4), S("e", 1), S("o", mw)], "ios": [],
+                    "mods": [M(items=[["mem", {"key": "m0", "w": mw, "d": md, "init": [], "wr": ["sync"], "rd": [["comb", []], ["sync", [0]]],
+                                                "rdc": [[["sl", ["s", 0], 0, ab], ["s", 2]], [["sl", ["s", 0], 0, ab], ["s", 2]]],
+                                                "wrc": [[["sl", ["s", 0], 0, ab], ["sl", ["s", 1], 0, mw], ["s", 2]]]}, "mem"]],
+                               st=[["comb", [["eq", ["s", 3], ["mr", "m0", 0]]]]])], "ports": P(4)})
     # I/O buffers of the three kinds in different modules
     out.append({"sigs": [S("i", 2), S("o", 1), S("oe", 1), S("x", 4), S("y", 4)], "ios": [{"n": "pi", "w": 2}, {"n": "po", "w": 1}, {"n": "pio", "w": 4}],
                 "mods": [M(items=[["mod", 1, "m1"], ["buf", {"port": ["io", 0], "i": ["s", 0], "o": None, "oe": None}, None]]),
@@ -1554,12 +1865,14 @@ def gen_cases(tier, seed):
     n_mut_src = 16 if not thorough else 100
     made = 0
     skipped = 0
+    skipped_by = {}
     mut_pool = []
     while made < n_designs:
-        D = gen_design(rng, dollar=(rng.random() < 0.06))
+        D = gen_design(rng, dollar=(rng.random() < 0.06), ws=(rng.random() < 0.03), zio=(rng.random() < 0.03))
         ok, err = legal(D)
         if not ok:
             skipped += 1
+            skipped_by[err[0]] = skipped_by.get(err[0], 0) + 1
             if skipped > 20 * n_designs:
                 break
             continue
@@ -1609,6 +1922,7 @@ def gen_cases(tier, seed):
     for i in range(0, len(seqs), 150):
         cases.append({"kind": "names", "items": seqs[i:i + 150]})
     GEN_STATS["skipped_illegal"] = skipped
+    GEN_STATS["skipped_by"] = skipped_by
     return cases
 
 
